@@ -61,6 +61,26 @@ def normalize2D (init : s) (mx : s → s → s) (m : MeshVal (List s)) (name : S
 def copyAttr (m src : MeshVal α) (k : AttrKey) : MeshVal α :=
   m.setAttr k (match src.attr? k with | some d => d | none => [])
 
+/-- `CropAttribute3DNodeData.Process` (crop_transformer.go:105): no box wired ⇒ the input mesh itself; the attribute
+    defaults to Position; otherwise `CropFloat3Attribute` (which rejects non-point meshes and a missing attribute). -/
+def cropNode (m : MeshVal α) (attr : Option String) (inside : Option (α → Bool)) : Option (MeshVal α) :=
+  match inside with
+  | none => some m
+  | some p => m.crop ⟨3, attr.getD "Position"⟩ p
+
+/-- `ScaleAttributeAlongNormalNodeData.Process` (scale_attribute.go:94): no mesh wired, or one of the two attributes
+    (defaults Position / Normal) missing ⇒ the EMPTY TRIANGLE mesh (not an error); amount defaults to 0. -/
+def scaleAlongNormalNode (m : Option (MeshVal (List s))) (attr nrm : Option String) (amount : Option s) :
+    Option (MeshVal (List s)) :=
+  match m with
+  | none => some (MeshVal.empty .triangle)
+  | some m =>
+    let a := attr.getD "Position"
+    let n := nrm.getD "Normal"
+    if !m.hasAttr ⟨3, a⟩ then some (MeshVal.empty .triangle)
+    else if !m.hasAttr ⟨3, n⟩ then some (MeshVal.empty .triangle)
+    else m.scaleAlongNormal a n (amount.getD ((0 : Nat) : s))
+
 /-- The contract of `CropFloat3Attribute` at the vertex level, whatever the incoming index buffer is:
     a point cloud with the input's materials; the surviving vertices are exactly those whose value of attribute `k`
     is `inside`, in their original order, every attribute array carried along (`keepAt` with ONE flag list); the
